@@ -157,7 +157,11 @@ func Decorate(r *core.Rng, s *Schema, d *Doc, p float64, pBad float64) {
 					opts = append(opts, fmt.Sprintf("pointer: %v", r.Chance(0.7)))
 				}
 				if !v.Type.NonNull && r.Chance(0.5) {
-					opts = append(opts, fmt.Sprintf("omitempty: %v", r.Chance(0.8)))
+					pTrue := 0.8
+					if td := s.Get(v.Type.Base()); td != nil && td.Kind == "INPUT" {
+						pTrue = 0.5 // an explicit `omitempty: false` matters under use_struct_references
+					}
+					opts = append(opts, fmt.Sprintf("omitempty: %v", r.Chance(pTrue)))
 				}
 				if v.Type.NonNull && r.Chance(pBad) {
 					opts = append(opts, "omitempty: true")
@@ -182,7 +186,7 @@ func Decorate(r *core.Rng, s *Schema, d *Doc, p float64, pBad float64) {
 func RandomCfg(r *core.Rng, s *Schema) *CfgOpts {
 	c := &CfgOpts{Bindings: map[string]string{}}
 	c.Optional = []string{"", "", "value", "pointer", "generic"}[r.Intn(5)]
-	c.StructReferences = r.Chance(0.2)
+	c.StructReferences = r.Chance(0.3)
 	c.Casing = []string{"", "", "default", "raw", "auto_camel_case"}[r.Intn(5)]
 	c.Marshalers = map[string][2]string{}
 	k := 0
@@ -367,7 +371,7 @@ func DecorateSafe(r *core.Rng, s *Schema, d *Doc, p float64) {
 					opts = append(opts, fmt.Sprintf("pointer: %v", r.Chance(0.7)))
 				}
 				if !v.Type.NonNull && r.Chance(0.5) {
-					opts = append(opts, "omitempty: true")
+					opts = append(opts, fmt.Sprintf("omitempty: %v", !isInput || r.Chance(0.5)))
 				}
 				_ = isInput
 				if len(opts) > 0 {
